@@ -781,6 +781,18 @@ def m_dict_get(interp, d, key, default=None):
     return d.get(key, default)
 
 
+def m_dict_pop(interp, d, key, *default):
+    if isinstance(key, Sym) or interp.has_sym(key):
+        try:
+            k = interp.dict_key(d, key)
+        except KeyError:
+            if default:
+                return default[0]
+            raise
+        return d.pop(k)
+    return d.pop(key, *default)
+
+
 class SymRange(object):
     """range() with a symbolic bound: iteration is unrolled under the
     interpreter's loop bound (unwinding assertion)"""
@@ -1002,6 +1014,7 @@ def install(interp):
     mm[(struct.Struct, "unpack")] = struct_unpack
     mm[(bytes, "join")] = m_bytes_join
     mm[(dict, "get")] = m_dict_get
+    mm[(dict, "pop")] = m_dict_pop
     tm[range] = m_range
     m[zlib.compress] = zlib_compress
     m[zlib.decompress] = zlib_decompress
